@@ -43,6 +43,7 @@ fn main() {
         "sweep" => race::run_sweep(&opts),
         "sweepsched" => sweepsched::run(&opts),
         "abuf" => abuf::run(&opts),
+        "abufallocchild" => abuf::allocchild(&opts),
         "gate" => gate::run(&opts),
         "failpath" => failpath::run(&opts),
         "failpathchild" => failpath::child(&opts),
